@@ -13,7 +13,7 @@ PROPERTY = 'C04'
 LEVEL = 'exploration'
 TECHNIQUE = 'runtime monitoring: segmentation metamorphism of BGP.dataReceived against a reference RFC 4271 deframer, handler-callback recorder + wire tap, executed-line work meter (sys.monitoring) per dataReceived call'
 RULE = ('peer byte streams built from valid and invalid messages (every length-field value 0..65535 on KEEPALIVE/UPDATE-shaped frames, '
-        'every type octet, each marker octet corrupted, truncated tails at every offset, 1-6 frame streams from a message pool), '
+        'every type octet, each marker octet corrupted, truncated tails at every offset, 1-6 frame streams from a message pool and from a pool of well-framed frames with mutated bodies), '
         'each delivered frame-by-frame (as cut by the reference deframer) and then re-delivered to a fresh session in the same state '
         'as one chunk, every 1-cut, 2-cuts, byte-at-a-time and random k-cuts; reports (names + payloads), bytes written, close and '
         'reported state must agree; per-frame oracle: <=1 report of the matching kind, framing violations answered by NOTIFICATION(1,subcode)+close; '
@@ -133,7 +133,7 @@ def chunks_of(stream, cuts):
     return out
 
 
-def check_stream(stream, state, rng, full, stats, V, segs_mode='all'):
+def check_stream(stream, state, rng, full, stats, V, segs_mode='all', hostile=False):
     items, rest = wire.deframe(stream)
     ref_chunks = [it[3] for it in items if it[0] == 'frame']
     consumed = sum(len(c) for c in ref_chunks)
@@ -169,7 +169,7 @@ def check_stream(stream, state, rng, full, stats, V, segs_mode='all'):
                     V.append(dict(kind='false-framing-error', features=feats + ['type:%d' % typ, 'subcode:%s' % x[2]],
                                   detail='frame %d (type %d, %d octets) is well framed but was answered with Message Header Error subcode %s'
                                   % (j, typ, flen, x[2]), replay=dict(stream=stream.hex(), state=state, cuts=None)))
-            if not d['closed'] and typ in (2, 3, 4, 5, 128) and len(d['reports']) != 1 and len(items[j][3]) >= wire.MIN_LEN[typ] \
+            if not hostile and not d['closed'] and typ in (2, 3, 4, 5, 128) and len(d['reports']) != 1 and len(items[j][3]) >= wire.MIN_LEN[typ] \
                     and (typ != 2 or update_lengths_in_range(items[j][2])):
                 V.append(dict(kind='frame-lost', features=feats + ['type:%d' % typ],
                               detail='frame %d (type %d, %d octets) was accepted without a close but produced %d reports' % (
@@ -260,10 +260,16 @@ def gen_streams(kind, lo, hi, rng):
         base = KEEPALIVE + S.UPD_ROUTE + S.MSGS['RR'][0]
         for i in range(1, len(base)):
             yield base[:i]
-    elif kind == 'pool':
+    elif kind in ('pool', 'fuzzpool'):
+        pool = POOL
+        if kind == 'fuzzpool':
+            # well-framed frames with hostile bodies (mutated unit-test corpus) between good ones
+            from vlib import corpus, mutate
+            msgs = corpus.messages()
+            pool = POOL[:4] + [frame(t, mutate.random_mutation(b, rng)[:600]) for t, b in (rng.choice(msgs) for _ in range(60))]
         for _ in range(lo, hi):
             k = rng.randint(1, 6)
-            s = b''.join(rng.choice(POOL) for _ in range(k))
+            s = b''.join(rng.choice(pool) for _ in range(k))
             r = rng.random()
             if r < 0.25:
                 s = s[:rng.randint(1, len(s))]
@@ -291,6 +297,8 @@ def plan(tier, seed):
     per = 20 if not full else 150
     for i in range(npool):
         shards.append(dict(kind='pool', lo=0, hi=per, states=STATES, full=full, seed=seed * 100 + i, segs='all'))
+    for i in range(8):
+        shards.append(dict(kind='fuzzpool', lo=0, hi=per, states=STATES, full=full, seed=seed * 100 + 50 + i, segs='all'))
     return shards
 
 
@@ -301,17 +309,18 @@ def run_shard(sh):
     res = dict(evaluations=0, counters={}, maxima={}, sets={}, distinct=[], samples=[], violations=[])
     n = 0
     for stream in gen_streams(sh['kind'], sh['lo'], sh['hi'], rng):
-        if sh['kind'] == 'pool' and budget.expired():
+        if sh['kind'] in ('pool', 'fuzzpool') and budget.expired():
             break
         for st in sh['states']:
-            check_stream(stream, st, rng, sh['full'], stats, V, sh['segs'])
+            check_stream(stream, st, rng, sh['full'], stats, V, sh['segs'], hostile=sh['kind'] == 'fuzzpool')
             n += 1
             if len(res['distinct']) < 200000:
                 res['distinct'].append('%s|%s|%d' % (sh['kind'], st, hash(stream)))
-        if n <= 3 and sh['kind'] in ('pool', 'marker'):
+        if n <= 3 and sh['kind'] in ('pool', 'marker', 'fuzzpool'):
             res['samples'].append(dict(kind=sh['kind'], stream=stream.hex()[:200], states=sh['states']))
     seen = {}
     for v in V:
+        v['replay']['hostile'] = sh['kind'] == 'fuzzpool'
         seen.setdefault((v['kind'], tuple(v['features'])), v)
     res['violations'] = list(seen.values())
     res['evaluations'] = stats['segmentations'] + stats['streams']
@@ -338,5 +347,5 @@ def floors(m, tier):
 def replay(rep):
     stats = dict(calls=0, max_lines=0, max_ratio=0.0, streams=0, segmentations=0, seg_kinds=set(), violations_seen=set())
     V = []
-    check_stream(bytes.fromhex(rep['stream']), rep['state'], random.Random(0), True, stats, V)
+    check_stream(bytes.fromhex(rep['stream']), rep['state'], random.Random(0), True, stats, V, hostile=bool(rep.get('hostile')))
     return V
